@@ -28,10 +28,10 @@ Notation step_run := (Shutdown.step_run ucfg).
 
 Definition wf_pc (t : tid) (p : pc) : bool :=
   match p with
-  | PTop | PWork => true
+  | PTop | PWork => match t with AP => false | _ => true end
   | PRead | PGate => match t with MI => true | _ => false end
   | PQOut | PLock COut | PSend COut => match t with MI | PB => true | _ => false end
-  | PLock CTx | PSend CTx => match t with MI | UN => true | _ => false end
+  | PLock CTx | PSend CTx => match t with MI | UN | AP => true | _ => false end
   | PStopUn | PWaitUn => match t with MU => true | _ => false end
   end.
 Definition wf_t (t : tid) (s : tstate) : bool := match s with TLive p _ => wf_pc t p | _ => true end.
@@ -135,10 +135,10 @@ Proof.
   - intros ->. split; [intros _; discriminate|]. intros _. apply Hpu. reflexivity.
 Qed.
 
-Lemma inv2_register w t : Inv2 w -> thread w t = TSpawned -> Inv2 (register w t).
+Lemma inv2_register w t : Inv2 w -> t <> AP -> thread w t = TSpawned -> Inv2 (register w t).
 Proof.
-  intros H Et. unfold register. apply inv2_set_cnt. apply inv2_set_thread; [exact H|].
-  split; [reflexivity|]. split; [intros; discriminate|]. split; [intros; discriminate|]. split.
+  intros H Hap Et. unfold register. apply inv2_set_cnt. apply inv2_set_thread; [exact H|].
+  split; [destruct t; try reflexivity; congruence|]. split; [intros; discriminate|]. split; [intros; discriminate|]. split.
   - intros; reflexivity.
   - intros _. split; intros; discriminate.
 Qed.
@@ -305,7 +305,8 @@ Lemma not_send_of_unlocked w c t f :
   Inv2 w -> ch_locked w c = false -> thread w t <> TLive (PSend c) f.
 Proof.
   intros H Hl Et. destruct (i2_thr w H t) as (A & _). rewrite Et in A. cbn in A.
-  unfold ch_locked in Hl. apply orb_false_iff in Hl. destruct Hl as [Hl L3]. apply orb_false_iff in Hl. destruct Hl as [L1 L2].
+  unfold ch_locked in Hl. apply orb_false_iff in Hl. destruct Hl as [Hl L4]. apply orb_false_iff in Hl. destruct Hl as [Hl L3].
+  apply orb_false_iff in Hl. destruct Hl as [L1 L2].
   destruct t, c; try discriminate; rewrite Et in *; cbn in *; discriminate.
 Qed.
 
@@ -321,6 +322,7 @@ Proof.
     + assert (Hns : stopped w = false).
       { destruct (stopped w) eqn:Es; [|reflexivity]. apply (i2_stopped w H) in Es. congruence. }
       pose proof (i2_call w H) as Hc. pose proof (i2_thr w H MU) as Hmu. pose proof (i2_thr w H UN) as Hun.
+      pose proof (i2_thr w H AP) as Hap.
       unfold Shutdown.connect. constructor; cbn; try discriminate; try reflexivity; try lia.
       * intros t. unfold thread. cbn.
         destruct t; cbn; try (repeat split; cbn; try reflexivity; intros; discriminate).
@@ -328,6 +330,8 @@ Proof.
            destruct Hmu as (A & B & C & D & E0). unfold thread in *. cbn in *.
            split; [exact A|]. split; [intros c f Es; destruct c; reflexivity|]. split; [exact C|]. split; intros; discriminate.
         -- destruct Hun as (A & B & C & D & E0). unfold thread in *. cbn in *.
+           split; [exact A|]. split; [intros c f Es; destruct c; reflexivity|]. split; [intros; discriminate|]. split; intros; discriminate.
+        -- destruct Hap as (A & B & C & D & E0). unfold thread in *. cbn in *.
            split; [exact A|]. split; [intros c f Es; destruct c; reflexivity|]. split; [intros; discriminate|]. split; intros; discriminate.
       * exact Hc.
       * unfold stopped in Hns. rewrite Hns. discriminate.
@@ -433,19 +437,33 @@ Proof. intros H Hw Hs Hu. apply inv2_set_thread; [exact H|apply tl_live_simple; 
 
 Ltac simple_live H := apply inv2_live_simple; [exact H|first [reflexivity|assumption]|intros ?; discriminate|discriminate].
 
+Lemma tl_none w t : tl_ok w t TNone \/ t = SO \/ t = PU.
+Proof.
+  destruct t; auto; left; (split; [reflexivity|]); (split; [intros; discriminate|]); (split; [intros; discriminate|]);
+    split; intros; discriminate.
+Qed.
+
+Lemma inv2_set_ap_none w : Inv2 w -> Inv2 (set_thread w AP TNone).
+Proof.
+  intros H. apply inv2_set_thread; [exact H|]. destruct (tl_none w AP) as [X|[X|X]]; [exact X|discriminate|discriminate].
+Qed.
+
 Lemma inv2_after_add w t f ok : Inv2 w -> Inv2 (after_add w t f ok).
 Proof.
   intros H. unfold after_add.
-  destruct t, ok; try (simple_live H).
+  destruct t, ok; try (simple_live H); try (apply inv2_set_ap_none, H).
   apply inv2_exit; [exact H|discriminate|discriminate].
 Qed.
 
-Lemma inv2_end_body w t : Inv2 w -> Inv2 (end_body w t).
-Proof. intros H. unfold end_body. simple_live H. Qed.
-
-Lemma inv2_fail_exit w t : Inv2 w -> Inv2 (fail_exit w t).
+Lemma inv2_end_body w t : t <> AP -> Inv2 w -> Inv2 (end_body w t).
 Proof.
-  intros H. unfold fail_exit. destruct t; try (apply inv2_end_body, H).
+  intros Hap H. unfold end_body.
+  apply inv2_live_simple; [exact H|destruct t; try reflexivity; congruence|intros ?; discriminate|discriminate].
+Qed.
+
+Lemma inv2_fail_exit w t : t <> AP -> Inv2 w -> Inv2 (fail_exit w t).
+Proof.
+  intros Hap H. unfold fail_exit. destruct t; try congruence; try (apply inv2_end_body; [discriminate|exact H]).
   - apply inv2_exit; [apply inv2_request_stop, H|discriminate|discriminate].
   - apply inv2_exit; [apply inv2_restart, H|discriminate|discriminate].
   - apply inv2_exit; [exact H|discriminate|discriminate].
@@ -476,18 +494,19 @@ Proof.
                         | _ => Some (end_body w t)
                         end
       | _, _ => Some (end_body w t)
-      end = Some w'' -> Inv2 w'').
-  { intros w'' E'. destruct k, f as [|f']; try (injection E' as <-; apply inv2_end_body, H).
+      end = Some w'' -> t <> AP -> Inv2 w'').
+  { intros w'' E' Hap. pose proof (wf_of w t PWork f H Et) as Hwf.
+    destruct k, f as [|f']; try (injection E' as <-; apply inv2_end_body; [exact Hap|exact H]).
     - injection E' as <-. pose proof (inv2_callback w t H) as Hc. simple_live Hc.
-    - destruct (uses_out t) eqn:Eu; injection E' as <-; [|apply inv2_end_body, H].
+    - destruct (uses_out t) eqn:Eu; injection E' as <-; [|apply inv2_end_body; [exact Hap|exact H]].
       apply inv2_live_simple; [exact H|destruct t; try discriminate; reflexivity|intros ?; discriminate|discriminate].
-    - destruct (uses_tx t) eqn:Eu; injection E' as <-; [|apply inv2_end_body, H].
-      apply inv2_live_simple; [exact H|destruct t; try discriminate; reflexivity|intros ?; discriminate|discriminate].
-    - destruct t; injection E' as <-; try (apply inv2_end_body, H).
+    - destruct (uses_tx t) eqn:Eu; injection E' as <-; [|apply inv2_end_body; [exact Hap|exact H]].
+      apply inv2_live_simple; [exact H|destruct t; try discriminate; try reflexivity; congruence|intros ?; discriminate|discriminate].
+    - destruct t; injection E' as <-; try (apply inv2_end_body; [discriminate|exact H]); try congruence.
       eapply inv2_spawn_un; [simple_live H|]. unfold thread. cbn. reflexivity.
-    - injection E' as <-. apply inv2_fail_exit, H.
-    - injection E' as <-. apply inv2_fail_exit, H. }
-  destruct t; try (apply Hprod; exact E).
+    - injection E' as <-. apply inv2_fail_exit; [exact Hap|exact H].
+    - injection E' as <-. apply inv2_fail_exit; [exact Hap|exact H]. }
+  destruct t; try (apply Hprod; [exact E|discriminate]); try discriminate.
   - (* SO *) injection E as <-. destruct k.
     all: try (simple_live H).
     pose proof (inv2_restart w H) as Hr. simple_live Hr.
@@ -526,6 +545,7 @@ Proof.
   - injection E as <-. destruct (stopping w); [apply inv2_exit; [exact H|discriminate|discriminate]|simple_live H].
   - injection E as <-. destruct (stopping w); simple_live H.
   - destruct (w_ustop w); [|discriminate]. injection E as <-. apply inv2_exit; [exact H|discriminate|discriminate].
+  - discriminate.
 Qed.
 
 Lemma inv2_read_step w w' : Inv2 w -> read_step w = Some w' -> Inv2 w'.
@@ -548,7 +568,7 @@ Proof.
   destruct p.
   - eapply inv2_top_step; eassumption.
   - destruct t; try discriminate. eapply inv2_read_step; eassumption.
-  - injection E as <-. destruct (stopping w); simple_live H.
+  - destruct t; try discriminate. injection E as <-. destruct (stopping w); simple_live H.
   - eapply inv2_work_step; eassumption.
   - injection E as <-. destruct (stopping w); [apply inv2_after_add, H|].
     apply inv2_live_simple; [exact H|destruct t; try discriminate; reflexivity|intros ?; discriminate|discriminate].
@@ -601,7 +621,11 @@ Proof.
     + apply (i2_stopped w H).
   - unfold thread in E. cbn in E. destruct (t_un (w_thr w)) as [| |p f|] eqn:Et; try discriminate. destruct p; try discriminate.
     destruct (w_ustop w); [discriminate|]. injection E as <-. simple_live H.
-  - destruct (thread w t) eqn:Et; try discriminate. injection E as <-. apply inv2_register; assumption.
+  - unfold thread in E. cbn in E. destruct (t_ap (w_thr w)); try discriminate. injection E as <-.
+    apply inv2_set_thread; [exact H|]. apply tl_live_simple; [reflexivity|intros ?; discriminate|discriminate].
+  - unfold thread in E. destruct t; cbn in E; try discriminate;
+      match type of E with match ?x with _ => _ end = _ => destruct x eqn:Et end; try discriminate;
+      injection E as <-; (apply inv2_register; [exact H|discriminate|exact Et]).
   - eapply Inv2_step_thread; eassumption.
 Qed.
 
@@ -622,9 +646,10 @@ Definition benign (a : act) : bool :=
 Definition can_go (w : sw) : Prop :=
   exists a, benign a = true /\ thread_act a = true /\ prompt_ok w a = true /\ step w a <> None.
 
-Lemma go_reg w t : thread w t = TSpawned -> can_go w.
+Lemma go_reg w t : thread w t = TSpawned -> t <> AP -> can_go w.
 Proof.
-  intros Et. exists (AReg t). split; [reflexivity|]. split; [reflexivity|]. split; [reflexivity|]. cbn. rewrite Et. discriminate.
+  intros Et Hap. exists (AReg t). split; [reflexivity|]. split; [reflexivity|]. split; [reflexivity|].
+  unfold Shutdown.step. destruct t; try congruence; rewrite Et; discriminate.
 Qed.
 
 Lemma prompt_step_not_mu w t k n : t <> MU -> prompt_ok w (AStep t k n) = true.
@@ -642,7 +667,7 @@ Lemma go_consumer w tc c :
 Proof.
   intros Htc H Hb Hl.
   destruct (thread w tc) as [| |p f|] eqn:Et; try discriminate.
-  - eapply go_reg; eassumption.
+  - eapply go_reg; [eassumption|destruct Htc as [[-> _]|[-> _]]; discriminate].
   - pose proof (wf_of w tc p f H Et) as Hw.
     assert (Hne : tc <> MU) by (destruct Htc as [[-> _]|[-> _]]; discriminate).
     apply (go_step w tc KEnd 0 eq_refl eq_refl Hne). unfold Shutdown.step_thread. rewrite Et.
@@ -656,10 +681,12 @@ Proof.
   assert (Hat : forall t, at_send c (thread w t) = true -> exists f, thread w t = TLive (PSend c) f).
   { intros t Ha. destruct (thread w t) as [| |p f|]; try discriminate. destruct p; try discriminate.
     exists f. destruct c, c0; try discriminate; reflexivity. }
-  apply orb_true_iff in Hl. destruct Hl as [Hl|Hl]; [apply orb_true_iff in Hl; destruct Hl as [Hl|Hl]|].
+  apply orb_true_iff in Hl. destruct Hl as [Hl|Hl]; [apply orb_true_iff in Hl; destruct Hl as [Hl|Hl];
+    [apply orb_true_iff in Hl; destruct Hl as [Hl|Hl]|]|].
   - destruct (Hat MI Hl) as (f & Ef). exists MI, f. split; [exact Ef|discriminate].
   - destruct (Hat PB Hl) as (f & Ef). exists PB, f. split; [exact Ef|discriminate].
   - destruct (Hat UN Hl) as (f & Ef). exists UN, f. split; [exact Ef|discriminate].
+  - destruct (Hat AP Hl) as (f & Ef). exists AP, f. split; [exact Ef|discriminate].
 Qed.
 
 Definition consumer_of (c : chan) : tid := match c with COut => SO | CTx => PU end.
@@ -801,7 +828,7 @@ Proof.
   1-3: (eapply go_mu_early; [exact Et|discriminate|reflexivity]).
   (* PWaitUn *)
   destruct (thread w UN) as [| |pu fu|] eqn:Eu.
-  2: { eapply go_reg; exact Eu. }
+  2: { eapply go_reg; [exact Eu|discriminate]. }
   3: { assert (Hn : n_un (w_cnt w) = 0) by (rewrite (inv_un w HI); unfold thread in Eu; cbn in Eu; rewrite Eu; reflexivity).
        exists (AStep MU KEnd 0). split; [reflexivity|]. split; [reflexivity|]. split.
        - unfold prompt_ok. rewrite Et, Eu. rewrite orb_true_r. reflexivity.
@@ -851,11 +878,11 @@ Proof.
     assert (Hc : w_conn w = CNone) by (apply (i2_conn w H); rewrite Ep; reflexivity).
     assert (Ho : so_pcs (pc_of w) = true \/ o_open (w_ch w) = false) by (left; rewrite Ep; reflexivity).
     assert (Hx : pu_pcs (pc_of w) = true \/ x_open (w_ch w) = false) by (left; rewrite Ep; reflexivity).
-    destruct (thread w MI) as [| |pm fm|] eqn:Emi; try (eapply go_reg; eassumption).
+    destruct (thread w MI) as [| |pm fm|] eqn:Emi; try (eapply go_reg; [eassumption|discriminate]).
     2: { eapply go_producer; try eassumption; discriminate. }
-    all: destruct (thread w CD) as [| |pc0 fc|] eqn:Ecd; try (eapply go_reg; eassumption).
+    all: destruct (thread w CD) as [| |pc0 fc|] eqn:Ecd; try (eapply go_reg; [eassumption|discriminate]).
     all: try (eapply (go_producer w CD); try eassumption; discriminate).
-    all: destruct (thread w MU) as [| |pu fu|] eqn:Emu; try (eapply go_reg; eassumption).
+    all: destruct (thread w MU) as [| |pu fu|] eqn:Emu; try (eapply go_reg; [eassumption|discriminate]).
     all: try (eapply go_mu; eassumption).
     all: (exists (ARun true); split; [reflexivity|]; split; [reflexivity|];
           assert (Hn : n_in (w_cnt w) = 0)
@@ -878,13 +905,13 @@ Proof.
     assert (Hxc : x_open (w_ch w) = false) by (apply (i2_xclosed w H); rewrite Ep; reflexivity).
     assert (Ho : so_pcs (pc_of w) = true \/ o_open (w_ch w) = false) by (right; exact Hoc).
     assert (Hx : pu_pcs (pc_of w) = true \/ x_open (w_ch w) = false) by (right; exact Hxc).
-    destruct (thread w RT) as [| |p1 f1|] eqn:E1; try (eapply go_reg; eassumption).
+    destruct (thread w RT) as [| |p1 f1|] eqn:E1; try (eapply go_reg; [eassumption|discriminate]).
     2: { eapply go_producer; try eassumption; discriminate. }
-    all: destruct (thread w SO) as [| |p2 f2|] eqn:E2; try (eapply go_reg; eassumption).
+    all: destruct (thread w SO) as [| |p2 f2|] eqn:E2; try (eapply go_reg; [eassumption|discriminate]).
     all: try (eapply (go_consumer_closed w SO COut); [left; auto|exact H|eassumption|exact Hoc]).
-    all: destruct (thread w PB) as [| |p3 f3|] eqn:E3; try (eapply go_reg; eassumption).
+    all: destruct (thread w PB) as [| |p3 f3|] eqn:E3; try (eapply go_reg; [eassumption|discriminate]).
     all: try (eapply (go_producer w PB); try eassumption; discriminate).
-    all: destruct (thread w PU) as [| |p4 f4|] eqn:E4; try (eapply go_reg; eassumption).
+    all: destruct (thread w PU) as [| |p4 f4|] eqn:E4; try (eapply go_reg; [eassumption|discriminate]).
     all: try (eapply (go_consumer_closed w PU CTx); [right; auto|exact H|eassumption|exact Hxc]).
     all: (exists (ARun true); split; [reflexivity|]; split; [reflexivity|];
           assert (Hn : n_proc (w_cnt w) = 0)
@@ -966,12 +993,26 @@ Lemma rank_after_add w t f ok p :
 Proof.
   intros Et. unfold after_add.
   assert (Hpos : 0 <= rank_thread t (TLive PWork f)) by apply rank_thread_nonneg.
+  pose proof (rank_live_pos t p f) as Hp.
   destruct t, ok; try (rewrite rank_set_thread, Et; lia).
-  rewrite rank_exit, Et. lia.
+  all: try (rewrite rank_exit, Et; lia).
+  all: rewrite rank_set_thread, Et; change (rank_thread AP TNone) with 0; lia.
 Qed.
 
 Lemma some_inj {A} (x y : A) : Some x = Some y -> x = y.
 Proof. congruence. Qed.
+
+Lemma areg_inv w t w' : step w (AReg t) = Some w' -> t <> AP /\ thread w t = TSpawned /\ w' = register w t.
+Proof.
+  unfold Shutdown.step. intros E.
+  destruct t; try discriminate;
+    match type of E with match ?x with _ => _ end = _ => destruct x eqn:Et end; try discriminate;
+    apply some_inj in E; subst w'; (split; [discriminate|split; reflexivity]).
+Qed.
+Lemma aapi_inv w w' : step w AApiTx = Some w' -> thread w AP = TNone /\ w' = set_thread w AP (TLive (PLock CTx) 0).
+Proof.
+  unfold Shutdown.step. intros E. destruct (thread w AP) eqn:Et; try discriminate. apply some_inj in E. auto.
+Qed.
 
 Lemma rank_step_thread w t k n w' :
   stopping w = true -> step_thread w t k n = Some w' -> rank w' < rank w.
@@ -991,6 +1032,7 @@ Proof.
       * rewrite rank_exit, Et. lia.
     + (* MU *) (apply some_inj in E; subst w'). rewrite rank_set_thread, Et. rk.
     + (* UN *) destruct (w_ustop w); [|discriminate]. (apply some_inj in E; subst w'). rewrite rank_exit, Et. lia.
+    + discriminate.
   - (* PRead *)
     destruct t; try discriminate. unfold read_step in E.
     destruct (w_conn w).
@@ -1046,6 +1088,7 @@ Proof.
                 rewrite thread_request_stop, rank_request_stop, Et; rk).
       rewrite rank_exit, rank_set_pufail. change (thread (set_pufail (request_stop w)) PU) with (thread (request_stop w) PU).
       rewrite thread_request_stop, rank_request_stop, Et. lia.
+    + discriminate.
   - (* PQOut *)
     rewrite Hst in E. (apply some_inj in E; subst w').
     pose proof (rank_after_add w t f false PQOut Et) as Ha. revert Ha. rk. destruct t; lia.
@@ -1112,17 +1155,19 @@ Theorem rank_decreases w a w' :
 Proof.
   intros HI H Hst Hh Ha E. destruct a; try discriminate; cbn in E.
   - eapply rank_step_run; eassumption.
-  - destruct (thread w t) eqn:Et; try discriminate. apply some_inj in E; subst w'.
+  - apply areg_inv in E. destruct E as (Hap & Et & ->).
     unfold register. rewrite rank_set_cnt, rank_set_thread, Et. cbn. destruct t; lia.
   - eapply rank_step_thread; eassumption.
 Qed.
 
 (* steps of the environment: the trusted peer and further calls of Stop never increase the rank; a
-   message of an untrusted peer adds at most the work it carries *)
+   message of an untrusted peer adds at most the work it carries, a call of the public API (HandleTx)
+   the few steps of one TxChannel.Add and of taking its item *)
 Theorem rank_env w a w' :
   thread_act a = false -> step w a = Some w' ->
   match a with
   | AUnMsg n => rank w' <= rank w + 1 + W * Z.of_nat n
+  | AApiTx => rank w' <= rank w + 7
   | _ => rank w' = rank w
   end.
 Proof.
@@ -1135,6 +1180,8 @@ Proof.
   - destruct (w_conn w); try discriminate. apply some_inj in E; subst w'. apply rank_ext; reflexivity.
   - unfold thread in E. cbn in E. destruct (t_un (w_thr w)) as [| |p f|] eqn:Et; try discriminate. destruct p; try discriminate.
     destruct (w_ustop w); [discriminate|]. apply some_inj in E; subst w'.
+    rewrite rank_set_thread. unfold thread. cbn. rewrite Et. unfold rank_thread, rank_pc, W. lia.
+  - unfold thread in E. cbn in E. destruct (t_ap (w_thr w)) eqn:Et; try discriminate. apply some_inj in E; subst w'.
     rewrite rank_set_thread. unfold thread. cbn. rewrite Et. unfold rank_thread, rank_pc, W. lia.
 Qed.
 
@@ -1180,7 +1227,8 @@ Proof.
   - destruct (w_conn w); try discriminate. apply some_inj in E; subst w'. cbn; auto.
   - unfold thread in E. cbn in E. destruct (t_un (w_thr w)) as [| |p f|]; try discriminate. destruct p; try discriminate.
     destruct (w_ustop w); [discriminate|]. apply some_inj in E; subst w'. cbn; auto.
-  - destruct (thread w t); try discriminate. apply some_inj in E; subst w'. cbn; auto.
+  - unfold thread in E. cbn in E. destruct (t_ap (w_thr w)); try discriminate. apply some_inj in E; subst w'. cbn; auto.
+  - change (step w (AReg t) = Some w') in E. apply areg_inv in E. destruct E as (_ & _ & ->). cbn; auto.
   - apply ctl_step_thread in E. destruct E as [E|[E|E]]; rewrite E, ?Hrs, ?Hrq; auto.
 Qed.
 
@@ -1200,12 +1248,14 @@ Fixpoint effective (w : sw) (acts : list act) : Z :=
   | a :: acts' => (if thread_act a && is_some (step w a) then 1 else 0) + effective (apply w a) acts'
   end.
 
-(* work brought in by messages of the untrusted peer that were accepted along a continuation *)
+(* work brought in by messages of the untrusted peer that were accepted, and by calls of the public
+   API (HandleTx) that were begun, along a continuation *)
 Fixpoint injected (w : sw) (acts : list act) : Z :=
   match acts with
   | [] => 0
   | a :: acts' => (match a with
                    | AUnMsg n => if is_some (step w a) then 1 + W * Z.of_nat n else 0
+                   | AApiTx => if is_some (step w a) then 7 else 0
                    | _ => 0
                    end) + injected (apply w a) acts'
   end.
@@ -1327,7 +1377,8 @@ Proof.
   - destruct (w_conn w); try discriminate. apply some_inj in E; subst w'. apply Hsame; reflexivity.
   - unfold thread in E. cbn in E. destruct (t_un (w_thr w)) as [| |p f|]; try discriminate. destruct p; try discriminate.
     destruct (w_ustop w); [discriminate|]. apply some_inj in E; subst w'. apply Hsame; reflexivity.
-  - destruct (thread w t) eqn:Et; try discriminate. apply some_inj in E; subst w'.
+  - unfold thread in E. cbn in E. destruct (t_ap (w_thr w)); try discriminate. apply some_inj in E; subst w'. apply Hsame; reflexivity.
+  - change (step w (AReg t) = Some w') in E. apply areg_inv in E. destruct E as (_ & Et & ->).
     destruct t; try congruence; apply Hsame; reflexivity.
   - destruct (tid_eq_dec t MU) as [->|Hne]; [elim (N2 k n eq_refl)|].
     destruct (frame_step_thread w t k n w' Hne E). apply Hsame; assumption.
